@@ -375,7 +375,7 @@ def build(tier):
                  ("advances", "final(self).idx == old(self).idx + (if r is Some { 1int } else { 0int })"),
                  ("the_token", "r is Some ==> r->Some_0 == old(self).tokens@[old(self).idx as int]"),
                  ("ok", "ts_ok(*final(self))")],
-        hints=[dict(anchor="self.idx += 1;", where="before", text="proof { assert(self.tokens@.len() == self.tokens.len()); }")],
+        hints=[dict(anchor="self.idx +=", where="before", text="proof { assert(self.tokens@.len() == self.tokens.len()); }")],
         props=c01))
     u.add_fn(LEX, "unpop", impl=IMPL, wrap_impl="<'a> TokenStream<'a>", contract=Contract(
         requires=[("popped_before", "old(self).idx > 0")],
